@@ -39,7 +39,7 @@ pub const P9: &[SPos] = &[
     SPos { name: "threefold", fen: "8/5ppk/7p/8/P1P1PQ2/8/Pr2N1KR/8 w - - 3 42", history: "f4f5 h7g8 f5c8 g8h7" },
     SPos { name: "kiwipete+kingwalk", fen: seeds::KIWIPETE, history: "e1f1 e8f8 f1e1 f8e8" },
     SPos { name: "clock-99-b", fen: "8/3p4/4k3/8/8/3K4/8/R7 b - - 99 80", history: "" },
-    SPos { name: "queen-vs-rook", fen: "8/8/8/3k4/8/2r5/8/3QK3 w - - 0 1", history: "" },
+    SPos { name: "queen-vs-rook", fen: "8/8/8/4k3/8/2r5/8/3QK3 w - - 0 1", history: "" },
     SPos { name: "hanging-queen", fen: "rnb1kbnr/pppp1ppp/8/4p3/4P2q/5N2/PPPP1PPP/RNBQKB1R w KQkq - 2 3", history: "" },
     SPos { name: "stale-or-mate", fen: "8/k1P5/8/1K6/8/8/8/8 w - - 0 1", history: "" },
     SPos { name: "underpromotion", fen: "8/5P1k/8/8/8/8/8/K7 w - - 0 1", history: "" },
@@ -49,6 +49,18 @@ pub const P9: &[SPos] = &[
     SPos { name: "mated-soon-b", fen: "6k1/5ppp/8/8/8/8/8/R3K3 b Q - 0 1", history: "" },
     SPos { name: "discovered", fen: "8/8/1P2K3/8/2n5/1q6/8/5k2 b - - 0 1", history: "" },
 ];
+
+/// Every listed position must be a legal position with at least one legal move (machinery error
+/// otherwise: an illegal position - side not to move in check - is outside every property's domain).
+pub fn validate() -> Result<(), String> {
+    for p in P9 {
+        let (_, pos, _) = super::searchrun::open(p.fen, &hist(p)).map_err(|e| format!("search position {}: {e}", p.name))?;
+        if pos.legal_moves().is_empty() {
+            return Err(format!("search position {} has no legal move", p.name));
+        }
+    }
+    Ok(())
+}
 
 pub fn case_seed(p: &SPos) -> Seed {
     Seed {
